@@ -5,6 +5,7 @@ import (
 	"go/ast"
 	"go/token"
 	"go/types"
+	"sort"
 	"strings"
 
 	"golang.org/x/tools/go/packages"
@@ -75,6 +76,9 @@ func (p *Program) scopeProv(fd *ast.FuncDecl, e ast.Expr, depth int, visiting ma
 		return true
 	})
 	if madeHere {
+		if p.scopeRoots != nil {
+			p.scopeRoots[obj] = true
+		}
 		if declName(fd) == "Compile" && fd.Recv != nil {
 			return true, "the map allocated by Compile"
 		}
@@ -132,6 +136,8 @@ func ruleC06(p *Program, r *Run) {
 	info := pkg.TypesInfo
 	ctxT := p.Named(pkg, "exprContext")
 	compile := p.MustFunc(pkg, "CompileOptions.Compile")
+	p.scopeRoots = map[types.Object]bool{}
+	defer func() { p.scopeRoots = nil }()
 
 	// ---- ctx: every expression context carries the scope
 	n := 0
@@ -274,6 +280,33 @@ func ruleC06(p *Program, r *Run) {
 			return true
 		})
 	}
+	if !letMode {
+		// the context may be built once before the statement loop and handed to the writer from the let case: the
+		// variable passed there is defined once, by a literal in let mode
+		for _, root := range letRegion {
+			ast.Inspect(root, func(nn ast.Node) bool {
+				call, ok := nn.(*ast.CallExpr)
+				if !ok || len(call.Args) == 0 {
+					return true
+				}
+				for _, a := range call.Args {
+					if !types.Identical(info.TypeOf(a), types.NewPointer(ctxT)) && !types.Identical(info.TypeOf(a), ctxT) {
+						continue
+					}
+					o := objOf(info, a)
+					if o == nil || !p.neverReassigned(o) {
+						continue
+					}
+					if lit := litOf(p.DefExpr(a)); lit != nil && types.Identical(info.TypeOf(lit), ctxT) {
+						if m := litField(info, lit, "mode"); m != nil && constName(info, m) == "letExprMode" {
+							letMode = true
+						}
+					}
+				}
+				return true
+			})
+		}
+	}
 	r.Check(letMode, "C06/let-mode", fn+" let values are written in let mode", p.Pos(letCase.Pos()), "context has mode: letExprMode (only earlier bindings and constants allowed; C13/gate-let)", "the value of a let statement is not written in let mode: it could refer to columns")
 
 	// the hole that writes the let value: class Closed, query variable nil, stored under the let's own name afterwards
@@ -330,30 +363,78 @@ func ruleC06(p *Program, r *Run) {
 	}
 	// store: scope[stmt.Name.Name] = <builder>.String() after the write
 	stored := false
-	ast.Inspect(letCase, func(nn ast.Node) bool {
-		as, ok := nn.(*ast.AssignStmt)
-		if !ok || len(as.Lhs) != 1 || len(as.Rhs) != 1 {
+	// the let statement, as the case itself names it or as a helper of the case receives it
+	isLetStmt := func(x ast.Expr) bool {
+		o := objOf(info, x)
+		if o == nil {
+			return false
+		}
+		if o == clauseVar(info, letCase) {
 			return true
 		}
-		ix, ok := as.Lhs[0].(*ast.IndexExpr)
-		if !ok {
-			return true
+		// a parameter of a helper that the case calls with the statement
+		hfd := p.FuncAt(o.Pos())
+		if hfd == nil {
+			return false
 		}
-		if ok2, _ := p.scopeProvenance(letFn, ix.X, 0); !ok2 {
-			return true
+		idx := paramIndex(info, hfd, o.(*types.Var))
+		if idx < 0 {
+			return false
 		}
-		// the text of a checked builder (directly, through a temporary, or returned by a helper that wrote it)
-		if !p.assembledSQL(as.Rhs[0], 0) {
-			return true
+		bound := false
+		for _, reg := range letRegion {
+			ast.Inspect(reg, func(m ast.Node) bool {
+				if call, isCall := m.(*ast.CallExpr); isCall && idx < len(call.Args) {
+					if d, _ := p.DeclOf(Callee(info, call)); d == hfd && objOf(info, call.Args[idx]) == clauseVar(info, letCase) {
+						bound = true
+					}
+				}
+				return true
+			})
 		}
-		// key is the let's own name
-		if ks, ok := ast.Unparen(ix.Index).(*ast.SelectorExpr); ok && ks.Sel.Name == "Name" {
-			if inner, ok := ast.Unparen(ks.X).(*ast.SelectorExpr); ok && inner.Sel.Name == "Name" && objOf(info, inner.X) == clauseVar(info, letCase) {
-				stored = true
+		return bound
+	}
+	for _, reg := range letRegion {
+		ast.Inspect(reg, func(nn ast.Node) bool {
+			as, ok := nn.(*ast.AssignStmt)
+			if !ok || len(as.Lhs) != 1 || len(as.Rhs) != 1 {
+				return true
 			}
+			ix, ok := as.Lhs[0].(*ast.IndexExpr)
+			if !ok {
+				return true
+			}
+			inFn := p.FuncAt(as.Pos())
+			if inFn == nil {
+				inFn = letFn
+			}
+			if ok2, _ := p.scopeProvenance(inFn, ix.X, 0); !ok2 {
+				return true
+			}
+			// the text of a checked builder (directly, through a temporary, or returned by a helper that wrote it)
+			if !p.assembledSQL(as.Rhs[0], 0) {
+				return true
+			}
+			// key is the let's own name
+			if ks, ok := ast.Unparen(ix.Index).(*ast.SelectorExpr); ok && ks.Sel.Name == "Name" {
+				if inner, ok := ast.Unparen(ks.X).(*ast.SelectorExpr); ok && inner.Sel.Name == "Name" && isLetStmt(inner.X) {
+					stored = true
+				}
+			}
+			return true
+		})
+	}
+	{
+		// one scope: the contexts of the query, of the let values and of the join conditions, and the store of a
+		// binding, all work on the same map - a second map that is filled separately leaves some expressions
+		// (join conditions, row counts) without the bindings
+		var names []string
+		for o := range p.scopeRoots {
+			names = append(names, o.Name()+" ("+p.Pos(o.Pos())+")")
 		}
-		return true
-	})
+		sort.Strings(names)
+		r.Check(len(names) <= 1, "C06/ctx", fn+" one scope for all expression contexts", p.Pos(compile.Pos()), "every expression context and the store of a let binding use the same map", "expression contexts (or the store of let bindings) use different maps: "+strings.Join(names, ", ")+"; a binding stored into one is invisible to the expressions written under another")
+	}
 	r.Check(stored, "C06/order", fn+" binding stored under the let's name", p.Pos(letCase.Pos()), "scope[stmt.Name.Name] = text written for stmt.X (later lets and the query see it; a later let of the same name overwrites)", "the let case does not store the written value under the statement's own name in the scope")
 
 	// parameters are copied into the scope
